@@ -36,6 +36,16 @@ def hist_sources(ctx, R):
                'int main() {\n  const bool th = std::getenv("VERIF_TIER") && std::string(std::getenv("VERIF_TIER")) == "thorough";\n  hist::DEPTH = th ? 5 : 4;\n'
                '  all<float>();\n  all<double>();\n  all<long double>();\n}\n')
         jobs.append({'name': 'c04hist_%02d' % ci, 'src': src, 'opt': '-O1'})
+    # the four value shapes themselves (their compound kernels are what the quantity-level assignments forward to)
+    raw = ''
+    for nm in ('PlanarVector', 'Vector', 'SymmetricDyad', 'Dyad'):
+        raw += ('  {\n    using Q = PhQ::%s<T>;\n    hist::Explorer<Q> ex;\n    ex.qname = "%s";\n    hist::add_plus_minus<Q, Q>(ex, "%s", true);\n'
+                '    hist::add_plus_minus<Q, Q>(ex, "%s", false);\n    hist::add_times_divide<Q>(ex, true);\n    hist::add_times_divide<Q>(ex, false);\n'
+                '    hist::add_aliasing<Q>(ex, true, true);\n    ex.run();\n  }\n') % (nm, nm, nm, nm)
+    src = (inc + '#include "c04_hist.hpp"\n// dep %s\ntemplate <class T>\nvoid all() {\n%s}\n' % (dep, raw) +
+           'int main() {\n  const bool th = std::getenv("VERIF_TIER") && std::string(std::getenv("VERIF_TIER")) == "thorough";\n  hist::DEPTH = th ? 5 : 4;\n'
+           '  all<float>();\n  all<double>();\n  all<long double>();\n}\n')
+    jobs.append({'name': 'c04hist_raw', 'src': src, 'opt': '-O1'})
     return jobs
 
 
